@@ -393,6 +393,14 @@ func runVariant(c *run.Ctx, cs Case, s *Spec, a *Agg, v *Variant, dir string, re
 				c.Count("table_screens_read_back", 1)
 			}
 		}
+		if good {
+			// the bar graph is drawn once, at the end, when the output is not a live terminal: every variant can be read back
+			if f := judgeBarsRows(s, a, body); f != nil {
+				say(f)
+			} else if barsRowsApplicable(s, a) {
+				c.Count("bargraph_screens_read_back", 1)
+			}
+		}
 		c.Count("snapshots_judged", 1)
 		if csvPath != "" {
 			b, err := os.ReadFile(csvPath)
